@@ -209,6 +209,7 @@ class SimKernel:
         self.kids_for = lambda argv, n: []    # children spec chooser
         self.spawn_fail = set()  # spawn attempt numbers that raise OSError
         self.spawn_fail_errno = errno.ENOENT
+        self.spawn_fail_cmds = set()     # programs that do not exist (every spawn of them fails with ENOENT)
         self.spawn_fail_from = None      # every attempt from this number on fails (a failure that does not go away)
         self.calls_this_iteration = 0
         self.pipe_files = []     # read ends handed to circus (closed with the world if circus did not)
@@ -294,6 +295,8 @@ class SimKernel:
             self.spawn_attempts += 1
             if self.spawn_attempts in self.spawn_fail or (self.spawn_fail_from and self.spawn_attempts >= self.spawn_fail_from):
                 raise OSError(self.spawn_fail_errno, os.strerror(self.spawn_fail_errno) + ' (injected)')
+            if self.spawn_fail_cmds and argv and str(argv[0]).split()[:1] and str(argv[0]).split()[0] in self.spawn_fail_cmds:
+                raise OSError(errno.ENOENT, 'No such file or directory: %r' % argv[0])
         pid = self.next_pid
         self.next_pid += 1
         if beh is None:
